@@ -66,6 +66,9 @@ Definition run_framing (op : text) (args : list text) : option text :=
   else if text_eqb op (T "vbs_l2b") then
     match args with [b; rs] => Some (opt (p_bool b) (fun b => opt (p_list p_bytes_e rs) (fun rs =>
         T "OK " ++ pr_bytes (vbs_list_to_bytes BSZ b rs)))) | _ => Some bad_input end
+  else if text_eqb op (T "vbs_readm") then      (* with the configured maximum record length given (changed at run time) *)
+    match args with [m; b; f] => Some (opt (p_N m) (fun m => opt (p_bool b) (fun b => opt (p_bytes f) (fun f =>
+        pr_result pr_rend (read_all BSZ m f b))))) | _ => Some bad_input end
   else if text_eqb op (T "vbs_read") then
     match args with [b; f] => Some (opt (p_bool b) (fun b => opt (p_bytes f) (fun f =>
         pr_result pr_rend (read_all BSZ max_vbs_record_length f b)))) | _ => Some bad_input end
